@@ -1,4 +1,5 @@
 #include <assert.h>
+#include <limits.h>
 #include <stdbool.h>
 #include <stdlib.h>
 #include <string.h>
@@ -103,6 +104,7 @@ designator(struct scope *s, struct initparser *p)
 {
 	struct type *t;
 	char *name;
+	unsigned long long i;
 
 	p->last = &p->init;
 	p->sub = p->cur;
@@ -113,7 +115,10 @@ designator(struct scope *s, struct initparser *p)
 			if (t->kind != TYPEARRAY)
 				error(&tok.loc, "index designator is only valid for array types");
 			next();
-			p->sub->u.idx = intconstexpr(s, false) * t->base->size;
+			i = intconstexpr(s, false);
+			if (t->base->size && i > ULLONG_MAX / t->base->size - 1)
+				error(&tok.loc, "index designator is larger than array length");
+			p->sub->u.idx = i * t->base->size;
 			if (p->sub->u.idx >= t->size) {
 				if (!t->incomplete)
 					error(&tok.loc, "index designator is larger than array length");
